@@ -46,6 +46,7 @@ type c36Rec struct {
 	HKey  string // optional single header
 	HVal  string
 	Seg   string
+	JSON  map[string]string // json_value text per path (without "$."); nil when the value is not JSON
 }
 
 type c36Seg struct {
@@ -145,7 +146,12 @@ func c36BuildSegment(t *rapid.T, s3 *c36S3, d *c36Data, topic string, part int32
 			case 2:
 				r.Value = []byte{0x00, 0xff, 0x10}
 			default:
-				r.Value = []byte(fmt.Sprintf(`{"id":%d,"p":%d}`, r.Off, part))
+				// keys that differ only in letter case / inner white space hold different values
+				r.Value = []byte(fmt.Sprintf(`{"id":%d,"ID":"U%d","Id":"M%d","p":%d,"a b":"one-%d","a  b":"two-%d","n":{"x":%d,"X":"nx%d"},"N":{"x":"Nx%d"}}`,
+					r.Off, r.Off, r.Off, part, r.Off, r.Off, r.Off, r.Off, r.Off))
+				o := strconv.FormatInt(r.Off, 10)
+				r.JSON = map[string]string{"id": o, "ID": "U" + o, "Id": "M" + o, "p": strconv.Itoa(int(part)), "a b": "one-" + o, "a  b": "two-" + o,
+					"n.x": o, "n.X": "nx" + o, "N.x": "Nx" + o}
 			}
 			vr := vfkit.Record{TsDelta: r.Ts - first, Key: r.Key, Value: r.Value}
 			if rapid.IntRange(0, 5).Draw(t, "hdr") == 0 {
@@ -226,6 +232,135 @@ type c36Query struct {
 	Desc     bool
 	ScanFull bool
 	Shape    string
+	ListText string // the select list as written (for building variants)
+}
+
+// a column spec is an implicit column name or "json\x00<path>\x00<alias>" for json_value(_value, '<path>') [AS <alias>]
+func c36JSONSpec(path, alias string) string { return "json\x00" + path + "\x00" + alias }
+
+func c36IsJSON(spec string) (string, string, bool) {
+	if !strings.HasPrefix(spec, "json\x00") {
+		return "", "", false
+	}
+	parts := strings.SplitN(spec, "\x00", 3)
+	return parts[1], parts[2], true
+}
+
+func c36ColName(spec string) string {
+	if _, alias, ok := c36IsJSON(spec); ok {
+		if alias == "" {
+			return "json_value"
+		}
+		return alias
+	}
+	return spec
+}
+
+func c36ColText(spec string) string {
+	if path, alias, ok := c36IsJSON(spec); ok {
+		s := "json_value(_value, '" + path + "')"
+		if alias != "" {
+			s += " as " + alias
+		}
+		return s
+	}
+	return spec
+}
+
+func c36ListText(cols []string) string {
+	parts := make([]string, len(cols))
+	for i, c := range cols {
+		parts[i] = c36ColText(c)
+	}
+	return strings.Join(parts, ", ")
+}
+
+var c36JSONPaths = []string{"$.id", "$.ID", "$.Id", "$.p", "$.a b", "$.a  b", "$.n.x", "$.n.X", "$.N.x", "$.missing"}
+var c36JSONAliases = []string{"", "", "v", "V", "Val", "val", "VAL"}
+
+// c36Variant: the same query with one JSON path / alias changed only in letter case or inner white space
+var c36PathSiblings = map[string][]string{"$.id": {"$.ID", "$.Id"}, "$.ID": {"$.id", "$.Id"}, "$.Id": {"$.id", "$.ID"}, "$.a b": {"$.a  b"}, "$.a  b": {"$.a b"},
+	"$.n.x": {"$.n.X", "$.N.x"}, "$.n.X": {"$.n.x"}, "$.N.x": {"$.n.x"}, "$.p": {"$.P"}, "$.P": {"$.p"}, "$.missing": {"$.MISSING"}, "$.MISSING": {"$.missing"}}
+var c36AliasSiblings = map[string][]string{"v": {"V"}, "V": {"v"}, "Val": {"val", "VAL"}, "val": {"Val", "VAL"}, "VAL": {"val", "Val"}}
+
+func c36Variant(t *rapid.T, q c36Query) (c36Query, bool) {
+	var idx []int
+	for i, c := range q.Cols {
+		if _, _, ok := c36IsJSON(c); ok {
+			idx = append(idx, i)
+		}
+	}
+	if len(idx) == 0 || q.ListText == "" {
+		return q, false
+	}
+	i := rapid.SampledFrom(idx).Draw(t, "varcol")
+	path, alias, _ := c36IsJSON(q.Cols[i])
+	if sib := c36AliasSiblings[alias]; len(sib) > 0 && rapid.IntRange(0, 2).Draw(t, "varalias") == 0 {
+		alias = rapid.SampledFrom(sib).Draw(t, "alias2")
+	} else if sib := c36PathSiblings[path]; len(sib) > 0 {
+		path = rapid.SampledFrom(sib).Draw(t, "path2")
+	} else {
+		return q, false
+	}
+	v := q
+	v.Cols = append([]string(nil), q.Cols...)
+	v.Cols[i] = c36JSONSpec(path, alias)
+	v.ListText = c36ListText(v.Cols)
+	v.Text = strings.Replace(q.Text, q.ListText, v.ListText, 1)
+	v.Shape = q.Shape
+	return v, v.Text != q.Text
+}
+
+// c36FoldOutsideQuotes mirrors what the result cache may legitimately fold: text outside single/double
+// quotes is lower-cased and white-space-collapsed, quoted text is kept verbatim.
+func c36FoldOutsideQuotes(text string) string {
+	var b strings.Builder
+	var quote rune
+	space := false
+	for _, r := range text {
+		switch {
+		case quote != 0:
+			b.WriteRune(r)
+			if r == quote {
+				quote = 0
+			}
+		case r == ' ' || r == '\t' || r == '\n' || r == '\r' || r == '\v' || r == '\f':
+			space = b.Len() > 0
+		default:
+			if space {
+				b.WriteByte(' ')
+				space = false
+			}
+			if r == '\'' || r == '"' {
+				quote = r
+				b.WriteRune(r)
+			} else {
+				b.WriteString(strings.ToLower(string(r)))
+			}
+		}
+	}
+	return b.String()
+}
+
+// c36AliasKey: the unquoted, case-preserving part of a statement (column aliases as written)
+func c36AliasKey(q c36Query) string {
+	var parts []string
+	for _, c := range q.Cols {
+		if _, alias, ok := c36IsJSON(c); ok {
+			parts = append(parts, alias)
+		}
+	}
+	return strings.Join(parts, "\x1e")
+}
+
+func c36CaseKey(q c36Query) string {
+	var parts []string
+	for _, c := range q.Cols {
+		if _, _, ok := c36IsJSON(c); ok {
+			parts = append(parts, c)
+		}
+	}
+	return strings.Join(parts, "\x1e")
 }
 
 var c36AllCols = []string{"_topic", "_partition", "_offset", "_ts", "_key", "_value", "_headers", "_segment"}
@@ -272,7 +407,19 @@ func c36GenQuery(t *rapid.T, d *c36Data, allTs []int64, allOffs []int64) c36Quer
 		q.Cols = []string{"_partition", "_offset"}
 		extra := rapid.SliceOfNDistinct(rapid.SampledFrom([]string{"_topic", "_ts", "_key", "_value", "_headers", "_segment"}), 0, 4, rapid.ID[string]).Draw(t, "extra")
 		q.Cols = append(q.Cols, extra...)
-		sb.WriteString(strings.Join(q.Cols, ", "))
+		if rapid.IntRange(0, 2).Draw(t, "wjson") == 0 {
+			nj := rapid.IntRange(1, 2).Draw(t, "njson")
+			for j := 0; j < nj; j++ {
+				alias := rapid.SampledFrom(c36JSONAliases).Draw(t, "jalias")
+				if j > 0 && alias != "" {
+					alias += "2"
+				}
+				q.Cols = append(q.Cols, c36JSONSpec(rapid.SampledFrom(c36JSONPaths).Draw(t, "jpath"), alias))
+			}
+			shape = append(shape, "json")
+		}
+		q.ListText = c36ListText(q.Cols)
+		sb.WriteString(q.ListText)
 	}
 	sb.WriteString(" " + c36Kw(t, "from") + " " + q.Topic)
 
@@ -435,11 +582,15 @@ func c36ParserAgrees(q c36Query) (bool, bool) {
 		p.Limit == lim && p.Tail == tail && p.Last == q.LastText && p.OrderBy == ob && p.OrderDesc == q.Desc && p.ScanFull == q.ScanFull &&
 		p.TimeWindow == "" && len(p.GroupBy) == 0
 	if ok {
-		if len(q.Cols) == len(c36AllCols) {
+		if q.ListText == "" {
 			ok = len(p.Select) == 1 && p.Select[0].Kind == kafsql.SelectColumnStar
 		} else {
 			ok = len(p.Select) == len(q.Cols)
 			for i := range q.Cols {
+				if path, _, isJSON := c36IsJSON(q.Cols[i]); isJSON {
+					ok = ok && p.Select[i].Kind == kafsql.SelectColumnJSONValue && p.Select[i].JSONPath == path
+					continue
+				}
 				ok = ok && p.Select[i].Kind == kafsql.SelectColumnField && p.Select[i].Column == q.Cols[i] && p.Select[i].Source == ""
 			}
 		}
@@ -452,6 +603,16 @@ func c36ParserAgrees(q c36Query) (bool, bool) {
 const c36Null = "\x00NULL"
 
 func c36Cell(r c36Rec, topic, col string) string {
+	if path, _, ok := c36IsJSON(col); ok {
+		if r.JSON == nil {
+			return c36Null
+		}
+		v, present := r.JSON[strings.TrimPrefix(strings.TrimSpace(path), "$.")]
+		if !present {
+			return c36Null
+		}
+		return v
+	}
 	switch col {
 	case "_topic":
 		return topic
@@ -637,6 +798,138 @@ func c36ErrClass(msg string) string {
 	return "other"
 }
 
+const (
+	c36FindingCacheKey  = "C36-result-cache-key-folds-literals" // fixed by 0cf7913: no exclusion, witness kept
+	c36FindingAliasCase = "C36-result-cache-alias-case"
+)
+
+func c36VariantOfSome(t *rapid.T, prev []c36Query) (c36Query, bool) {
+	var cands []c36Query
+	for _, p := range prev {
+		if c36CaseKey(p) != "" {
+			cands = append(cands, p)
+		}
+	}
+	if len(cands) == 0 || rapid.IntRange(0, 2).Draw(t, "variant") != 0 {
+		return c36Query{}, false
+	}
+	return c36Variant(t, rapid.SampledFrom(cands).Draw(t, "varof"))
+}
+
+type c36Fail string
+
+// c36Judge is the oracle for one answered query: "" = the reply equals direct filtering.
+func c36Judge(d *c36Data, q c36Query, exp c36Expect, resp c36Resp, st *vfkit.Stats, ctx string) (verdict string) {
+	defer func() {
+		if r := recover(); r != nil {
+			if f, ok := r.(c36Fail); ok {
+				verdict = string(f)
+				return
+			}
+			panic(r)
+		}
+	}()
+	got := make([]string, len(resp.rows))
+	for i, r := range resp.rows {
+		got[i] = strings.Join(r, "\x1f")
+	}
+	want := make([]string, len(exp.matches))
+	for i, r := range exp.matches {
+		want[i] = c36Row(r, q.Topic, q.Cols)
+	}
+	fail := func(format string, a ...any) {
+		panic(c36Fail(fmt.Sprintf("%s\nquery: %s\nserver rows (%d): %q\nreference matches (%d, cap %d): %q\n%s\ndataset: %s",
+			fmt.Sprintf(format, a...), q.Text, len(got), c36Show(got), len(want), exp.cap, c36Show(want), ctx, c36Describe(d, q.Topic))))
+	}
+	names := make([]string, len(q.Cols))
+	for i, c := range q.Cols {
+		names[i] = c36ColName(c)
+	}
+	if strings.Join(resp.fields, "\x1f") != strings.Join(names, "\x1f") {
+		fail("columns %q, expected %q", resp.fields, names)
+	}
+	wantN := len(want)
+	if wantN > exp.cap {
+		wantN = exp.cap
+	}
+	if len(got) != wantN {
+		fail("row count %d, expected %d", len(got), wantN)
+	}
+	if resp.tag != "SELECT "+strconv.Itoa(len(got)) {
+		fail("command tag %q does not match %d rows", resp.tag, len(got))
+	}
+	wm := c36Multiset(want)
+	gm := c36Multiset(got)
+	for row, n := range gm {
+		if n > wm[row] {
+			fail("row %q returned %d times but matches the filters %d times", row, n, wm[row])
+		}
+	}
+	if len(want) <= exp.cap {
+		st.Class("complete-result")
+		for row, n := range wm {
+			if gm[row] != n {
+				fail("matching row %q missing (returned %d of %d)", row, gm[row], n)
+			}
+		}
+	} else {
+		st.Class("truncated-result")
+	}
+	tsOf := map[string]int64{}
+	for i, r := range exp.matches {
+		tsOf[want[i]] = r.Ts
+	}
+	switch {
+	case q.Order:
+		// sorted; nothing omitted sorts strictly before something included
+		for i := 1; i < len(got); i++ {
+			a, b := tsOf[got[i-1]], tsOf[got[i]]
+			if (!q.Desc && a > b) || (q.Desc && a < b) {
+				fail("rows not ordered by _ts at position %d", i)
+			}
+		}
+		if len(want) > exp.cap && len(got) > 0 {
+			rest := map[string]int{}
+			for k, v := range wm {
+				rest[k] = v - gm[k]
+			}
+			edge := tsOf[got[len(got)-1]]
+			for row, n := range rest {
+				if n > 0 && ((!q.Desc && tsOf[row] < edge) || (q.Desc && tsOf[row] > edge)) {
+					fail("omitted row %q sorts before the last returned row", row)
+				}
+			}
+		}
+	case q.Tail > 0:
+		single := q.Part != nil || d.parts[q.Topic] == 1
+		if single {
+			// "last N records" of one partition is unambiguous
+			tailWant := want
+			if len(tailWant) > q.Tail {
+				tailWant = tailWant[len(tailWant)-q.Tail:]
+			}
+			if strings.Join(got, "\x1e") != strings.Join(tailWant, "\x1e") {
+				fail("tail %d of a single partition is not its last records", q.Tail)
+			}
+			st.Class("tail-single-partition")
+		} else {
+			st.Class("tail-multi-partition(stat only)")
+		}
+	default:
+		firstN := want
+		if len(firstN) > exp.cap {
+			firstN = firstN[:exp.cap]
+		}
+		if strings.Join(got, "\x1e") == strings.Join(firstN, "\x1e") {
+			st.Class("stat:scan-order-prefix")
+		} else {
+			st.Class("stat:other-order")
+		}
+	}
+
+	return ""
+}
+
 func TestVF_C36_Select(t *testing.T) {
 	st := vfkit.NewStats("C36", "select")
 	defer st.Flush()
@@ -644,6 +937,7 @@ func TestVF_C36_Select(t *testing.T) {
 	s3 := c36NewS3()
 	defer s3.Close()
 	quiet := log.New(io.Discard, "", 0)
+	knownAliasCase := vfkit.Known(c36FindingAliasCase)
 
 	rapid.Check(t, func(t *rapid.T) {
 		st.Eval()
@@ -682,7 +976,10 @@ func TestVF_C36_Select(t *testing.T) {
 		caches := rapid.IntRange(0, 2).Draw(t, "caches") == 0
 		if caches {
 			cfg.DiscoveryCache = config.DiscoveryCacheConfig{TTLSeconds: 3600, MaxEntries: rapid.SampledFrom([]int{10000, 2}).Draw(t, "dcMax")}
-			cfg.ResultCache = config.ResultCacheConfig{TTLSeconds: 3600, MaxEntries: 8, MaxRows: rapid.SampledFrom([]int{1000, 2}).Draw(t, "rcRows")}
+		}
+		resultCache := caches || rapid.IntRange(0, 2).Draw(t, "resultCache") == 0
+		if resultCache {
+			cfg.ResultCache = config.ResultCacheConfig{TTLSeconds: 3600, MaxEntries: 8, MaxRows: rapid.SampledFrom([]int{1000, 1000, 2}).Draw(t, "rcRows")}
 		}
 
 		// ---- data set
@@ -734,7 +1031,7 @@ func TestVF_C36_Select(t *testing.T) {
 				t.Fatalf("VF-INCONCLUSIVE: manifest build against the S3 fake failed: %v", err)
 			}
 		}
-		mutable := !caches && !cfg.Manifest.Enabled
+		mutable := !caches && !resultCache && !cfg.Manifest.Enabled
 
 		var allTs, allOffs []int64
 		collect := func() {
@@ -777,6 +1074,7 @@ func TestVF_C36_Select(t *testing.T) {
 		}
 
 		var prev []c36Query
+		var seen [][2]string // (text folded outside quotes, aliases as written) of every query sent to this server
 		nq := rapid.IntRange(3, 8).Draw(t, "nqueries")
 		for qi := 0; qi < nq; qi++ {
 			// history step: a segment becomes complete / a new segment (and maybe its sidecar) appears
@@ -802,10 +1100,32 @@ func TestVF_C36_Select(t *testing.T) {
 			if len(prev) > 0 && rapid.IntRange(0, 4).Draw(t, "repeat") == 0 {
 				q = rapid.SampledFrom(prev).Draw(t, "again")
 				st.Class("repeat-query")
+			} else if v, ok := c36VariantOfSome(t, prev); ok {
+				q = v // differs from an earlier query only in letter case / white space inside a JSON path or alias
+				st.Class("case-variant-query")
 			} else {
 				q = c36GenQuery(t, d, allTs, allOffs)
 			}
 			prev = append(prev, q)
+
+			cacheable := q.Tail == 0 && !q.ScanFull && (q.LastText != "" || (q.TsMin != nil && q.TsMax != nil))
+			if resultCache && cacheable {
+				// known finding: unquoted aliases that differ only in letter case share a cache entry
+				clash := false
+				for _, e := range seen {
+					if e[0] == c36FoldOutsideQuotes(q.Text) && e[1] != c36AliasKey(q) {
+						clash = true
+					}
+				}
+				if clash {
+					st.Class("alias-case-cache-key-clash")
+					if knownAliasCase {
+						st.ExcludedCase(c36FindingAliasCase)
+						continue
+					}
+				}
+			}
+			seen = append(seen, [2]string{c36FoldOutsideQuotes(q.Text), c36AliasKey(q)})
 
 			agrees, parseErr := c36ParserAgrees(q)
 			exp := c36Reference(d, q, cfg.Query.DefaultLimit)
@@ -884,100 +1204,12 @@ func TestVF_C36_Select(t *testing.T) {
 				}
 			}
 
-			got := make([]string, len(resp.rows))
-			for i, r := range resp.rows {
-				got[i] = strings.Join(r, "\x1f")
+			ctxText := fmt.Sprintf("stats mode %s, sidecars %s, caches %v, segments skipped %d, injected fault %q (hits %d)", statsMode, sidePolicy, caches, skipped, faultMode, faultHits)
+			if v := c36Judge(d, q, exp, resp, st, ctxText); v != "" {
+				t.Fatalf("%s", v)
 			}
-			if strings.Join(resp.fields, ",") != strings.Join(q.Cols, ",") {
-				t.Fatalf("columns %v, expected %v for %q", resp.fields, q.Cols, q.Text)
-			}
-			want := make([]string, len(exp.matches))
-			for i, r := range exp.matches {
-				want[i] = c36Row(r, q.Topic, q.Cols)
-			}
-			fail := func(format string, a ...any) {
-				t.Fatalf("%s\nquery: %s\nserver rows (%d): %q\nreference matches (%d, cap %d): %q\nstats mode %s, sidecars %s, caches %v, segments skipped %d, injected fault %q (hits %d)\ndataset: %s",
-					fmt.Sprintf(format, a...), q.Text, len(got), c36Show(got), len(want), exp.cap, c36Show(want), statsMode, sidePolicy, caches, skipped, faultMode, faultHits, c36Describe(d, q.Topic))
-			}
-			wantN := len(want)
-			if wantN > exp.cap {
-				wantN = exp.cap
-			}
-			if len(got) != wantN {
-				fail("row count %d, expected %d", len(got), wantN)
-			}
-			if resp.tag != "SELECT "+strconv.Itoa(len(got)) {
-				fail("command tag %q does not match %d rows", resp.tag, len(got))
-			}
-			wm := c36Multiset(want)
-			gm := c36Multiset(got)
-			for row, n := range gm {
-				if n > wm[row] {
-					fail("row %q returned %d times but matches the filters %d times", row, n, wm[row])
-				}
-			}
-			if len(want) <= exp.cap {
-				st.Class("complete-result")
-				for row, n := range wm {
-					if gm[row] != n {
-						fail("matching row %q missing (returned %d of %d)", row, gm[row], n)
-					}
-				}
-			} else {
-				st.Class("truncated-result")
-			}
-			tsOf := map[string]int64{}
-			for i, r := range exp.matches {
-				tsOf[want[i]] = r.Ts
-			}
-			switch {
-			case q.Order:
-				// sorted; nothing omitted sorts strictly before something included
-				for i := 1; i < len(got); i++ {
-					a, b := tsOf[got[i-1]], tsOf[got[i]]
-					if (!q.Desc && a > b) || (q.Desc && a < b) {
-						fail("rows not ordered by _ts at position %d", i)
-					}
-				}
-				if len(want) > exp.cap && len(got) > 0 {
-					rest := map[string]int{}
-					for k, v := range wm {
-						rest[k] = v - gm[k]
-					}
-					edge := tsOf[got[len(got)-1]]
-					for row, n := range rest {
-						if n > 0 && ((!q.Desc && tsOf[row] < edge) || (q.Desc && tsOf[row] > edge)) {
-							fail("omitted row %q sorts before the last returned row", row)
-						}
-					}
-				}
-			case q.Tail > 0:
-				single := q.Part != nil || d.parts[q.Topic] == 1
-				if single {
-					// "last N records" of one partition is unambiguous
-					tailWant := want
-					if len(tailWant) > q.Tail {
-						tailWant = tailWant[len(tailWant)-q.Tail:]
-					}
-					if strings.Join(got, "\x1e") != strings.Join(tailWant, "\x1e") {
-						fail("tail %d of a single partition is not its last records", q.Tail)
-					}
-					st.Class("tail-single-partition")
-				} else {
-					st.Class("tail-multi-partition(stat only)")
-				}
-			default:
-				firstN := want
-				if len(firstN) > exp.cap {
-					firstN = firstN[:exp.cap]
-				}
-				if strings.Join(got, "\x1e") == strings.Join(firstN, "\x1e") {
-					st.Class("stat:scan-order-prefix")
-				} else {
-					st.Class("stat:other-order")
-				}
-			}
-
+			got := resp.rows
+			want := exp.matches
 			if skipped > 0 {
 				st.Class("pruned>=1-segment")
 			}
@@ -1018,4 +1250,85 @@ func c36Describe(d *c36Data, topic string) string {
 		sb.WriteString("] ")
 	}
 	return sb.String()
+}
+
+// Witness of C36-result-cache-key-folds-literals through the same wire path and oracle: two
+// cacheable queries on one server that differ only in the letter case of a JSON path.
+func TestVF_C36_Witness(t *testing.T) {
+	st := vfkit.NewStats("C36", "witness")
+	defer st.Flush()
+	c36AWSEnv()
+	s3 := c36NewS3()
+	defer s3.Close()
+	now0 := time.Now().UnixMilli()
+	d := &c36Data{ns: "c36w", topics: []string{"orders"}, parts: map[string]int{"orders": 1}, next: map[string]int64{}, now0: now0}
+	seg := &c36Seg{Topic: "orders", Part: 0, Base: 0, Key: c36SegKey(d.ns, "orders", 0, 0, "kfs"), IdxKey: c36SegKey(d.ns, "orders", 0, 0, "index")}
+	var recs []vfkit.Record
+	first := now0 - 5*60000
+	for i := 0; i < 2; i++ {
+		o := strconv.Itoa(i)
+		val := []byte(fmt.Sprintf(`{"ID":"upper-%d","id":"lower-%d"}`, i, i))
+		seg.Recs = append(seg.Recs, c36Rec{Part: 0, Off: int64(i), Ts: first + int64(i), Value: val, Seg: seg.Key, JSON: map[string]string{"ID": "upper-" + o, "id": "lower-" + o}})
+		recs = append(recs, vfkit.Record{TsDelta: int64(i), Value: val})
+	}
+	rb, err := storage.NewRecordBatchFromBytes(vfkit.NewBatch(0, first, recs).Encode())
+	if err != nil {
+		t.Fatalf("VF-INCONCLUSIVE: %v", err)
+	}
+	art, err := storage.BuildSegment(storage.SegmentWriterConfig{IndexIntervalMessages: 1}, []storage.RecordBatch{rb}, time.UnixMilli(now0))
+	if err != nil {
+		t.Fatalf("VF-INCONCLUSIVE: %v", err)
+	}
+	s3.Put(c36Bucket, seg.Key, art.SegmentBytes)
+	seg.idx = art.IndexBytes
+	c36Complete(s3, seg)
+	d.segs = []*c36Seg{seg}
+	cfg := config.Config{
+		S3:          config.S3Config{Bucket: c36Bucket, Namespace: d.ns, Endpoint: s3.URL(), Region: "us-east-1", PathStyle: true},
+		Server:      config.ServerConfig{ServerVersion: "15.0", ClientEncoding: "UTF8"},
+		Query:       config.QueryConfig{DefaultLimit: 1000, MaxUnbounded: 10000, RequireTimeBound: true},
+		ResultCache: config.ResultCacheConfig{TTLSeconds: 3600, MaxEntries: 8, MaxRows: 1000},
+	}
+	srv := New(cfg, log.New(io.Discard, "", 0))
+	sc, cc := net.Pipe()
+	ctx, cancel := context.WithCancel(context.Background())
+	done := make(chan struct{})
+	go func() { defer close(done); srv.handleConnection(ctx, sc) }()
+	defer func() { cc.Close(); cancel(); <-done }()
+	fe := pgproto3.NewFrontend(pgproto3.NewChunkReader(cc), cc)
+	if err := c36Startup(cc, fe); err != nil {
+		t.Fatalf("VF-INCONCLUSIVE: startup: %v", err)
+	}
+	mk := func(path, alias string) c36Query {
+		q := c36Query{Topic: "orders", Cols: []string{"_offset", c36JSONSpec(path, alias)}, LastText: "1h", LastMs: 3600000}
+		q.ListText = c36ListText(q.Cols)
+		q.Text = "SELECT " + q.ListText + " FROM orders LAST 1h"
+		return q
+	}
+	run := func(id string, pair [2]c36Query, whatStill, whatGone string) {
+		still, what := false, whatGone
+		for i, q := range pair {
+			st.Eval()
+			resp := c36RunQuery(fe, cc, q.Text)
+			if resp.ioErr != nil || resp.errMsg != "" {
+				t.Fatalf("VF-INCONCLUSIVE: witness query %q failed: %v %s", q.Text, resp.ioErr, resp.errMsg)
+			}
+			v := c36Judge(d, q, c36Reference(d, q, cfg.Query.DefaultLimit), resp, st, "witness")
+			st.NonTrivial(q.Text)
+			st.Sample(map[string]any{"query": q.Text, "columns": resp.fields, "rows": resp.rows, "verdict": strings.SplitN(v, "\n", 2)[0]})
+			if v != "" {
+				if i == 0 {
+					t.Fatalf("VF-INCONCLUSIVE: the first witness query is already wrong: %s", v)
+				}
+				still, what = true, whatStill
+			}
+		}
+		st.KnownResult(id, still, what)
+	}
+	run(c36FindingCacheKey, [2]c36Query{mk("$.ID", ""), mk("$.id", "")},
+		"result cache on: `SELECT _offset, json_value(_value, '$.ID') FROM orders LAST 1h` then the same with '$.id' returns upper-0, upper-1 (the first query's cache entry)",
+		"the '$.id' query is answered with its own rows after the '$.ID' query")
+	run(c36FindingAliasCase, [2]c36Query{mk("$.p", "VAL"), mk("$.p", "val")},
+		"result cache on: `SELECT _offset, json_value(_value, '$.p') as VAL FROM orders LAST 1h` then the same with `as val` is answered with column header VAL (the first query's cache entry)",
+		"the `as val` query gets its own column header after the `as VAL` query")
 }
